@@ -136,6 +136,11 @@ func runC11(c *Ctx) error {
 		for f, fl := range flagSets {
 			units = append(units, unit{g, fl, fmt.Sprintf("g%04df%d", i, f)})
 		}
+		if !c.Thorough() && i%3 == 0 {
+			// the compressed tables and the verbose dumps are writers of their own: a third of
+			// the grammars of the quick tier goes through them too
+			units = append(units, unit{g, []string{"-a", "-zip"}, fmt.Sprintf("g%04df2", i)}, unit{g, []string{"-a", "-v"}, fmt.Sprintf("g%04df3", i)})
+		}
 	}
 	run.Parallel(len(units), func(i int) {
 		u := units[i]
